@@ -157,9 +157,11 @@ class C15(Check):
 
     def _shrink_p(self, harness, driver, line, still_fails):
         toks = runner.strip_obs(line).split()
+        if len(toks) > 1500:      # deep-nesting cases are already minimal in kind; do not recurse over them in Python
+            return line
         try:
             tree, _ = self._parse(toks, 2)
-        except (ValueError, IndexError):
+        except (ValueError, IndexError, RecursionError):
             return line
         pre = toks[:2]
         budget = [40]
@@ -289,7 +291,8 @@ class C15(Check):
                         dout, _ = self._replay_lines(harness, driver, [cand])
                     except core.TieBroken:
                         return False
-                    return any(x.startswith(kind) and (clause in x) for x in dout)
+                    want = l.split(" model=")[1].split(" impl=")[0][:12] if kind == "MISMATCH" and " model=" in l else ""
+                    return any(x.startswith(kind) and (clause in x) and (want in x) for x in dout)
 
                 shown = case
                 if case.startswith("P ") and still(case):
@@ -315,13 +318,12 @@ class C15(Check):
         if finding.kind != "spec" or "clause=no_crash" not in d.get("driver", ""):
             return False
         text, obs, cls = d.get("text", ""), d.get("obs", ""), entry.get("classifier")
-        if d.get("kind") != "P":
-            return False
         if cls == "c15_int_modulo_traps":
             # SIGFPE and the program contains a `%` / `%=` (int division by a truncated-to-zero divisor or INT_MIN % -1)
             return "sig=8" in obs and re.search(r"%", text) is not None
         if cls == "c15_array_minus_empty_null_deref":
-            return "sig=11" in obs and re.search(r"-=?\s*\(?\s*null\b|-=?[^\n]*\bnull\b|-=", text) is not None and "sort(" not in text
+            # SIGSEGV, the program subtracts (binary `-` / `-=`), and it neither sorts with a comparator nor inserts a container into itself
+            return "sig=11" in obs and re.search(r"\S\s+-=?\s+\S", text) is not None and ".sort((" not in text and ".add(" not in text
         if cls == "c15_sort_comparator_not_strict_weak":
             return "sig=11" in obs and re.search(r"\.sort\(\s*\(?\(", text) is not None
         if cls == "c15_cyclic_container_recursion":
